@@ -6,6 +6,15 @@ PROPS = ['C13', 'C02', 'C04', 'C05', 'C01', 'C09', 'C08', 'C03']
 T = 'src/types.rs'
 
 
+# mutation canaries (thorough tier): textual mutations of the EXTRACTED copy that must each fail an obligation of the named item
+MUTANTS = [
+    ('types::SourceMap::prefix_source', '"http:"', '"htp:"'),
+    ('types::SourceMap::prefix_source', "verif_strip_suffix_char\\('/'\\)", "verif_strip_suffix_char('\\\\')"),
+    ('types::SourceMap::set_source_root', 'None => self\\.sources_prefixed = None', 'None => {}'),
+    ('types::SourceMap::set_source', 'sources_prefixed\\[idx as usize\\] =', 'sources_prefixed[0] ='),
+]
+
+
 def prelude_types(u):
     u.use('use vstd::std_specs::cmp::*;')
     u.use('use vstd::std_specs::hash::*;')
